@@ -149,6 +149,15 @@ func ruleNoOrderDep(w *World, r *Report, in map[*ssa.Function]bool) {
 						return
 					}
 				}
+				for _, rl := range rotatedLoopsOver(f, base) {
+					if idx == ssa.Value(rl.Phi) {
+						return
+					}
+				}
+				// the same with a compound loop condition (for i := 0; err == nil && i < len(xs); i++)
+				if ph, ok := idx.(*ssa.Phi); ok && unitCounterBoundedBy(f, ph, base) {
+					return
+				}
 			}
 			if !mapOrdered(w, f, base, 0) {
 				return
@@ -1656,6 +1665,44 @@ func bindingIs(b ssa.Value, target ssa.Value) bool {
 			if sv == target || resolve(sv) == target {
 				return true
 			}
+		}
+	}
+	return false
+}
+
+// unitCounterBoundedBy: phi counts 0, 1, 2, ... (initial value 0 from outside the
+// loop, every other incoming value is phi+1) and the loop it heads tests
+// phi < len(list): the positions of list are visited in order, none skipped.
+func unitCounterBoundedBy(f *ssa.Function, phi *ssa.Phi, list ssa.Value) bool {
+	hdr := phi.Block()
+	zero := false
+	for i, e := range phi.Edges {
+		if k, isK := constInt(e); isK && k == 0 && !hdr.Dominates(hdr.Preds[i]) {
+			zero = true
+			continue
+		}
+		inc, ok := resolve(e).(*ssa.BinOp)
+		if !ok || inc.Op != token.ADD || stripConv(inc.X) != ssa.Value(phi) {
+			return false
+		}
+		if k, isK := constInt(inc.Y); !isK || k != 1 {
+			return false
+		}
+	}
+	if !zero {
+		return false
+	}
+	for _, blk := range f.Blocks {
+		_, _, ifi := ifSuccs(blk)
+		if ifi == nil || !hdr.Dominates(blk) {
+			continue
+		}
+		cmp, ok := ifi.Cond.(*ssa.BinOp)
+		if !ok || cmp.Op != token.LSS || stripConv(cmp.X) != ssa.Value(phi) {
+			continue
+		}
+		if lc, ok := resolve(cmp.Y).(*ssa.Call); ok && builtinName(lc) == "len" && sameValue(lc.Call.Args[0], list) {
+			return true
 		}
 	}
 	return false
